@@ -139,7 +139,25 @@ impl WriteAheadLog {
         };
 
         let file = open_segment(&segment_path).await?;
-        let current_size = file.metadata().await.map_err(map_io_error)?.len();
+        let mut current_size = file.metadata().await.map_err(map_io_error)?.len();
+
+        // A crash can leave a partially written entry at the end of the active
+        // segment. Readers stop at it, so anything appended behind it would be
+        // unreadable: cut the segment back to its last complete entry first.
+        let valid_len: u64 = read_entries_from_path(&segment_path)?
+            .iter()
+            .map(|entry| (HEADER_LEN + entry.payload.len()) as u64)
+            .sum();
+        if valid_len < current_size {
+            warn!(
+                "Discarding {} bytes of incomplete WAL data at the end of {:?}",
+                current_size - valid_len,
+                segment_path
+            );
+            file.set_len(valid_len).await.map_err(map_io_error)?;
+            current_size = valid_len;
+        }
+
         let next_seq = match last_sequence_in_segments(&segments)? {
             Some(last_seq) => last_seq + 1,
             None => 1,
